@@ -581,6 +581,23 @@ func (w *seqWorld) exec(c *seqCmd) {
 		} else {
 			w.mu.Unlock()
 		}
+	case "lockwipe":
+		// the lock store has no entry for this log any more (a fresh or a wrong lock database, a different key against
+		// the same bucket) while every process is down; object storage still holds the log
+		for _, x := range w.insts {
+			if x.alive {
+				return
+			}
+		}
+		w.mu.Lock()
+		_, had := w.locks[w.logID]
+		delete(w.locks, w.logID)
+		w.mu.Unlock()
+		if had {
+			w.orc.tampered = true
+			w.ev("- lockwipe")
+			w.st.Count("op:lockwipe")
+		}
 	case "legacyize":
 		// the cache file of a log that ran v0.8.0 or earlier: some rows live only in the 128-bit "cache" table
 		if in.alive {
